@@ -144,6 +144,7 @@ theorem code_matches_model :
     Gen.Conf.handleSvcEndpointUpdate =
       ["c.Lock()",
       "defer c.Unlock()",
+      "added, removed = withAddress(added), withAddress(removed)",
       "if len(added) == 0 && len(removed) == 0 { return }",
       "sw, ok := c.sws[svcName]",
       "if !ok { return }",
@@ -151,7 +152,7 @@ theorem code_matches_model :
       "validRemoved := make([]*service.Endpoint, 0, len(removed))",
       "for _, endpoint := range removed { i, ok := isContainEndpoint(sw.Endpoints, endpoint) if !ok { continue } sw.Endpoints = append(sw.Endpoints[:i], sw.Endpoints[i+1:]...) validRemoved = append(validRemoved, endpoint) }",
       "validAdded := make([]*service.Endpoint, 0, len(added))",
-      "for _, endpoint := range added { _, ok := isContainEndpoint(sw.Endpoints, endpoint) if ok { continue } sw.Endpoints = append(sw.Endpoints, endpoint) validAdded = append(validAdded, endpoint) }",
+      "for _, endpoint := range added { i, ok := isContainEndpoint(sw.Endpoints, endpoint) if ok { if !sw.Endpoints[i].Equal(endpoint) { sw.Endpoints[i] = endpoint validAdded = append(validAdded, endpoint) } continue } sw.Endpoints = append(sw.Endpoints, endpoint) validAdded = append(validAdded, endpoint) }",
       "if sw.Config == nil || sw.Endpoints == nil { return }",
       "switch oldEndpoints { case nil: c.emitSvcAddEvent(sw) default: c.emitSvcEndpointEvent(svcName, validAdded, validRemoved) }"] ∧
     Gen.Conf.isContainEndpoint =
@@ -215,7 +216,8 @@ theorem proc_config_update_matches_model :
     Gen.Conf.resetHealthCheck =
       ["if m == nil { return nil }",
       "if err := config.Validate(); err != nil { return err }",
-      "if !config.Checker.Equal(m.config.Checker) { checker, err := newChecker(config) if err != nil { m.checker = tcp.NewChecker() return err } m.checker = checker }",
+      "sameChecker := config.Checker == nil && m.config.Checker == nil || config.Checker != nil && config.Checker.Equal(m.config.Checker)",
+      "if !sameChecker { checker, err := newChecker(config) if err != nil { return err } m.checker = checker }",
       "m.config = config",
       "m.strategyUpdateCh <- struct{}{}",
       "return nil"] ∧
@@ -227,8 +229,19 @@ theorem proc_config_update_matches_model :
       "if err != nil { return nil, err }",
       "ctx, cancel := context.WithCancel(context.Background())",
       "m := &Monitor{ logger: logger, ctx: ctx, cancel: cancel, done: make(chan struct{}), config: config, strategyUpdateCh: make(chan struct{}, 1), checker: checker, hostSet: hostSet, }",
-      "return m, nil"] := by
-  refine ⟨rfl, rfl, rfl⟩
+      "return m, nil"] ∧
+    Gen.Conf.decodePayload =
+      ["if len(b) == 0 { return \"\", ErrPayloadEmpty }",
+      "var isHexData = b[0] == 'b'",
+      "if !isHexData { return strconv.Unquote(string(b)) }",
+      "var err error",
+      "var rawData = string(b[1:])",
+      "if rawData, err = strconv.Unquote(rawData); err != nil { return \"\", err }",
+      "var payload []byte",
+      "payload, err = hex.DecodeString(rawData)",
+      "if err != nil { return \"\", err }",
+      "return string(payload), err"] := by
+  refine ⟨rfl, rfl, rfl, rfl⟩
 
 end SamVerif.Props.C08
 
